@@ -242,7 +242,8 @@ func (t *TracksReader) MultiPlay(trackouts map[int]drivers.Out) error {
 		},
 	)
 
-	sort.Sort(pl)
+	// stable: events that share a time must keep the order they have in the file
+	sort.Stable(pl)
 
 	var last time.Duration = 0
 
